@@ -312,3 +312,113 @@ INTERIM_HEADS = [
     b"HTTP/1.1 103 Early Hints\r\nLocation: http://evil.test/early\r\nContent-Length: 9\r\nTransfer-Encoding: chunked\r\n\r\n",
     b"HTTP/1.1 100 Continue\r\n\r\n",        # a 100 that is not awaited (no Expect, or a second one): handed to the caller like any interim response
 ]
+
+
+# ------------------------------------------------------------------ shared request / response contexts
+# What the seeded rounds taught (DESIGN.md 14.1-14.3): a property about one phase of an exchange must hold however the flow got there.
+# These helpers give every generator the same variety of routes.
+
+REDIR_302 = b"HTTP/1.1 302 Found\r\nLocation: /next\r\nContent-Length: 0\r\n\r\n"
+R100 = b"HTTP/1.1 100 Continue\r\n\r\n"
+
+
+def head_write_ops(rng):
+    """Writes of the request head: usually one large buffer; sometimes small segments first, an empty buffer first, and one call more than
+    needed afterwards (all of which must change nothing about what follows)."""
+    ops = []
+    r = rng.random()
+    if r < 0.15:
+        ops.append("write_head #0")
+    if r < 0.3:
+        for _ in range(rng.randrange(1, 6)):
+            ops.append("write_head %s" % num(rng.choice([1, 7, 14, 16, 17, 18, 22, 23, 24, 25, 28, 29, 30, 31, 40, 64])))
+    ops.append("write_head #100000")
+    if rng.random() < 0.2:
+        ops.append("write_head #100000")
+    return ops
+
+
+def send_context(rng, framing, route=None):
+    """Operations after which a flow is in SendBody with the given framing of its request body:
+    framing = "chunked" or ("length", N).  Returns (ops, route name).  Routes: the framing header on the original request / added in
+    Prepare / left to the default (chunked); a body method, or a body-less method with send_body_despite_method; HTTP/1.0 (POST, GET);
+    an explicit Host header; the Expect: 100-continue handshake (continued, given up with nothing or a partial 100 seen); a second hop
+    (the request made by as_new_flow from a redirected POST, given a body on request); the head written in segments."""
+    length = None if framing == "chunked" else framing[1]
+    routes = ["original", "original", "added", "despite", "despite-added", "http10", "host", "expect-continued", "expect-giveup", "expect-partial", "hop2"]
+    if framing == "chunked":
+        routes += ["default", "default", "default-despite"]
+    route = route or rng.choice(routes)
+    fh = ("transfer-encoding", rng.choice(["chunked", "Chunked"])) if length is None else ("content-length", str(length))
+    add = "header %s %s" % (hx(fh[0]), hx(fh[1]))
+    extra = [("x-a", "b")] if rng.random() < 0.3 else []
+    method = rng.choice(BODY_METHODS)
+    nobody = rng.choice(["GET", "DELETE", "OPTIONS"])
+    if route == "original":
+        ops = [op_new(method, "1.1", "http", "a.test", "/up", extra + [fh]), "proceed"]
+    elif route == "default":
+        ops = [op_new(method, "1.1", "http", "a.test", "/up", extra), "proceed"]
+    elif route == "default-despite":
+        ops = [op_new(nobody, "1.1", "http", "a.test", "/up", extra), "despite", "proceed"]
+    elif route == "added":
+        ops = [op_new(method, "1.1", "http", "a.test", "/up", extra), add, "proceed"]
+    elif route == "despite":
+        ops = [op_new(nobody, "1.1", "http", "a.test", "/up", extra + [fh]), "despite", "proceed"]
+    elif route == "despite-added":
+        first, second = rng.choice([("despite", add), (add, "despite")])
+        ops = [op_new(nobody, "1.1", "http", "a.test", "/up", extra), first, second, "proceed"]
+    elif route == "http10":
+        m10 = rng.choice(["POST", "POST", "GET"])
+        ops = [op_new(m10, "1.0", "http", "a.test", "/up", extra + [fh])] + (["despite"] if m10 == "GET" else []) + ["proceed"]
+    elif route == "host":
+        ops = [op_new(method, "1.1", "http", "a.test", "/up", extra + [("host", "own-host.test"), fh]), "proceed"]
+    elif route == "hop2":
+        # (the first hop has no body, so that the SendBody state reached is the one of the second hop; its request carries headers that are
+        # not inherited: a Content-Length of its own -- refused? no: a GET may not declare one -- so cookie and authorization)
+        ops = [op_new("GET", "1.1", "http", "a.test", "/first", [("cookie", "c=1"), ("authorization", "tok"), ("accept", "*/*")]), "proceed", "write_head #100000", "proceed",
+               "raw_try_response %s" % hx(REDIR_302), "proceed", "as_new_flow never", "follow", "despite", add, "proceed"]
+    else:
+        ops = [op_new(method, "1.1", "http", "a.test", "/up", extra + [("expect", "100-continue"), fh]), "proceed"]
+    ops += head_write_ops(rng) + ["proceed"]
+    if route == "expect-continued":
+        ops += ["raw_try100 %s" % hx(R100), "proceed"]
+    elif route == "expect-giveup":
+        ops += ["raw_try100 x", "proceed"]
+    elif route == "expect-partial":
+        ops += ["raw_try100 %s" % hx(R100[:rng.randrange(1, len(R100))]), "proceed"]
+    return ops, route
+
+
+def recv_context(rng, kind=None, body_allowed=True):
+    """Operations after which a flow is in RecvResponse, plus the bytes a server may have sent ahead of the response head (a late 100
+    Continue when the client gave up waiting).  Returns (ops, prefix bytes, info).  Kinds: GET / DELETE / OPTIONS, HEAD and CONNECT (only when
+    the caller can deal with their no-body rules), POST with its body sent, an HTTP/1.0 request, Connection: close on the request, the
+    Expect handshake continued / given up, a body-less method that sent a body on request, the request of a second hop."""
+    kinds = ["get", "get", "delete", "post", "get-1.0", "get-close", "expect-continued", "expect-giveup", "expect-giveup-late100", "despite", "hop2"]
+    if not body_allowed:
+        kinds += ["head", "connect"]
+    kind = kind or rng.choice(kinds)
+    prefix = b""
+    if kind in ("get", "delete", "head", "connect"):
+        ops = [op_new(kind.upper()), "proceed"] + head_write_ops(rng) + ["proceed"]
+    elif kind == "get-1.0":
+        ops = [op_new("GET", "1.0"), "proceed"] + head_write_ops(rng) + ["proceed"]
+    elif kind == "get-close":
+        ops = [op_new("GET", headers=[("connection", "close")]), "proceed"] + head_write_ops(rng) + ["proceed"]
+    elif kind == "post":
+        ops = [op_new("POST", headers=[("content-length", "2")]), "proceed"] + head_write_ops(rng) + ["proceed", "write_body %s #100" % hx(b"hi"), "proceed"]
+    elif kind == "despite":
+        ops = [op_new("GET"), "despite", "proceed"] + head_write_ops(rng) + ["proceed", "write_body %s #100" % hx(b"hi"), "write_body x #100", "proceed"]
+    elif kind == "hop2":
+        ops = [op_new("GET", headers=[("cookie", "c=1"), ("accept", "*/*")]), "proceed", "write_head #100000", "proceed", "raw_try_response %s" % hx(REDIR_302),
+               "proceed", "as_new_flow never", "follow", "proceed"] + head_write_ops(rng) + ["proceed"]
+    else:
+        ops = [op_new("POST", headers=[("content-length", "2"), ("expect", "100-continue")]), "proceed"] + head_write_ops(rng) + ["proceed"]
+        if kind == "expect-continued":
+            ops += ["raw_try100 %s" % hx(R100), "proceed"]
+        else:
+            ops += [rng.choice(["raw_try100 x", "raw_try100 %s" % hx(R100[:10])]), "proceed"]
+            if kind == "expect-giveup-late100":
+                prefix = R100
+        ops += ["write_body %s #100" % hx(b"hi"), "proceed"]
+    return ops, prefix, {"kind": kind, "http10_request": kind == "get-1.0", "request_close": kind == "get-close"}
